@@ -2,8 +2,8 @@
 (* The quoting layer common to every pattern type, as a scanner state machine over   *)
 (* the pattern text (one step per character):                                         *)
 (*   'text' and "text" are literals (a backslash inside a quote escapes the next       *)
-(*   character); \c outside quotes is the literal c; % must be followed by exactly      *)
-(*   one pattern character, not by % or the end of the text.                            *)
+(*   character); \c outside quotes is the literal c; % must be followed by another      *)
+(*   character that is not %, which is then handled as usual.                           *)
 (* Totality: every text ends in Ok or in a named error - the scanner never gets stuck.   *)
 EXTENDS Integers, Sequences
 CONSTANTS Alphabet, MaxLen
@@ -13,26 +13,22 @@ Texts == UNION {[1..n -> Alphabet] : n \in 0..MaxLen}
 Init == text \in Texts /\ pos = 1 /\ mode = "normal" /\ outcome = "scanning"
 AtEnd == pos > Len(text)
 c == text[pos]
+\* what a character does in normal mode (also the character after a percent sign, which is "handled as normal")
+Normal(ch) == IF ch = "'" THEN "single" ELSE IF ch = "\"" THEN "double" ELSE IF ch = "\\" THEN "escape" ELSE IF ch = "%" THEN "percent" ELSE "normal"
 StepChar ==
   /\ outcome = "scanning" /\ ~AtEnd /\ pos' = pos + 1 /\ UNCHANGED text
-  /\ CASE mode = "normal" ->
-            (IF c = "'" THEN mode' = "single" /\ outcome' = outcome
-             ELSE IF c = "\"" THEN mode' = "double" /\ outcome' = outcome
-             ELSE IF c = "\\" THEN mode' = "escape" /\ outcome' = outcome
-             ELSE IF c = "%" THEN (IF pos = 1 THEN mode' = "percent" /\ outcome' = outcome
-                                   ELSE mode' = mode /\ outcome' = "Error_percent_not_at_start")
-             ELSE mode' = mode /\ outcome' = outcome)
+  /\ CASE mode = "normal" -> mode' = Normal(c) /\ outcome' = outcome
        [] mode = "single" -> (IF c = "'" THEN mode' = "normal" ELSE IF c = "\\" THEN mode' = "single_escape" ELSE mode' = mode) /\ outcome' = outcome
        [] mode = "double" -> (IF c = "\"" THEN mode' = "normal" ELSE IF c = "\\" THEN mode' = "double_escape" ELSE mode' = mode) /\ outcome' = outcome
        [] mode = "single_escape" -> mode' = "single" /\ outcome' = outcome
        [] mode = "double_escape" -> mode' = "double" /\ outcome' = outcome
        [] mode = "escape" -> mode' = "normal" /\ outcome' = outcome
-       [] mode = "percent" -> IF c = "%" THEN mode' = mode /\ outcome' = "Error_percent_doubled" ELSE mode' = "normal" /\ outcome' = outcome
+       [] mode = "percent" -> IF c = "%" THEN mode' = mode /\ outcome' = "Error_percent_doubled" ELSE mode' = Normal(c) /\ outcome' = outcome
 Finish ==
   /\ outcome = "scanning" /\ AtEnd /\ UNCHANGED <<text, pos, mode>>
   /\ outcome' = CASE mode = "normal" -> "Ok"
-                  [] mode \in {"single", "double", "single_escape", "double_escape"} -> "Error_missing_end_quote"
-                  [] mode = "escape" -> "Error_escape_at_end"
+                  [] mode \in {"single", "double"} -> "Error_missing_end_quote"
+                  [] mode \in {"escape", "single_escape", "double_escape"} -> "Error_escape_at_end"
                   [] mode = "percent" -> "Error_percent_at_end"
 Next == StepChar \/ Finish
 Spec == Init /\ [][Next]_svars /\ WF_svars(Next)
@@ -40,5 +36,5 @@ Done == outcome # "scanning"
 Total == <>Done
 NeverStuck == (outcome = "scanning") => ENABLED Next
 OutcomeKnown == outcome \in {"scanning", "Ok", "Error_missing_end_quote", "Error_escape_at_end", "Error_percent_at_end",
-                             "Error_percent_doubled", "Error_percent_not_at_start"}
+                             "Error_percent_doubled"}
 =============================================================================
